@@ -75,3 +75,19 @@ func WriteCount() int          { return 0 }
 func Note(k, v string)         {}
 func SetBound(k string, v int) {}
 func Replaying() bool          { return true }
+
+// ParamStr is a harness parameter chosen by the check (e.g. the lint under test).
+func ParamStr(name, def string) string { return next("paramstr").s }
+
+var intLit = regexp.MustCompile(`-?[0-9]+`)
+
+// FmtBigArgs returns the *big.Int arguments that were formatted into s
+// (natively: the integer literals that appear in s).
+func FmtBigArgs(s string) []*big.Int {
+	var out []*big.Int
+	for _, m := range intLit.FindAllString(s, -1) {
+		n, _ := new(big.Int).SetString(m, 10)
+		out = append(out, n)
+	}
+	return out
+}
